@@ -307,6 +307,76 @@ fn run_singles(cx: &mut CaseCx, case: &Value) {
   cx.outcome("singles + sibling");
 }
 
+
+/// Refused requests leave nothing behind in the key material: a wrong-length puncture / evaluation (refused)
+/// followed by a valid puncture of the same or a neighbouring input must leave exactly the key material of
+/// that valid puncture alone - in particular no node on the path to the punctured input.
+fn run_refused_calls(cx: &mut CaseCx, case: &Value) {
+  use ppoprf::PPRF;
+  let c = match setup(cx, 1) {
+    Some(c) => c,
+    None => return,
+  };
+  let lo = case["lo"].as_u64().unwrap() as u8;
+  let g0 = c.initial.verif_pprf().clone();
+  let sorted = |g: &ppoprf::ggm::GGM| {
+    let mut n = hook_nodes(g).map(|x| x.0).unwrap_or_default();
+    n.sort();
+    n
+  };
+  for a in lo..=lo.saturating_add(15) {
+    // the key has some history already: one unrelated puncture
+    for pre in [None, Some(a ^ 0x55)] {
+      let mut base = g0.clone();
+      let mut hist: Vec<u8> = vec![];
+      if let Some(x) = pre {
+        let _ = base.puncture(&[x]);
+        hist.push(x);
+      }
+      for (what, bad) in [("an empty input", vec![]), ("a 2-byte input", vec![a, 0x5a]), ("a 3-byte input", vec![a, a, a]), ("a 33-byte input", vec![a; 33])] {
+        let mut g = base.clone();
+        cx.eval();
+        let refused_p = guard(|| g.puncture(&bad).is_err());
+        let refused_e = guard(|| g.eval(&bad, &mut [0u8; 32]).is_err());
+        if refused_p != Ok(true) || refused_e != Ok(true) {
+          cx.viol("C11/wrong-length-request-accepted", format!("puncture / eval of {} was not refused ({:?} / {:?})", what, refused_p, refused_e), json!({"punctured_in_order": hist, "request": what}));
+          continue;
+        }
+        if sorted(&g) != sorted(&base) {
+          cx.viol("C11/refused-request-changed-key-material", format!("a refused puncture of {} (first byte {}) changed the retained key material", what, a), json!({"punctured_in_order": hist, "request": what, "first_byte": a}));
+          return;
+        }
+        for y in [a, a ^ 0x80, a ^ 0x01, a ^ 0x40] {
+          if hist.contains(&y) {
+            continue;
+          }
+          let mut g2 = g.clone();
+          let mut r2 = base.clone();
+          if g2.puncture(&[y]).is_err() || r2.puncture(&[y]).is_err() {
+            cx.viol("C11/puncture-failed", format!("puncture({}) failed after a refused request", y), json!({"punctured_in_order": hist, "input": y}));
+            continue;
+          }
+          cx.eval();
+          let nodes = sorted(&g2);
+          if let Some((n, _)) = nodes.iter().find(|(n, _)| n.covers(y)) {
+            cx.viol("C11/retained-node-on-punctured-path/after-refused-request", format!("after a refused puncture of {} (first byte {}) and a valid puncture of {}, the key still retains a node (depth {}) on the path to {}", what, a, y, n.len, y), json!({"punctured_in_order": hist, "refused_request": what, "first_byte": a, "then_punctured": y}));
+            return;
+          }
+          if nodes != sorted(&r2) {
+            cx.viol("C11/refused-request-changed-key-material", format!("after a refused puncture of {} and a valid puncture of {}, the key material differs from the one of the valid puncture alone", what, y), json!({"punctured_in_order": hist, "refused_request": what, "then_punctured": y}));
+            return;
+          }
+          cx.count("refused_then_punctured", 1);
+        }
+      }
+    }
+    cx.nontrivial(a as u64);
+  }
+  cx.count("states", 16);
+  cx.count("transitions", 16);
+  cx.outcome("refused calls leave nothing");
+}
+
 pub fn spec() -> PropSpec {
   PropSpec {
     id: "C11",
@@ -330,6 +400,13 @@ pub fn spec() -> PropSpec {
         },
         run: run_subsets,
         min_counts: &[("states", 1000), ("exports_parsed", 1000), ("imports_checked", 500), ("seed_scans", 1000), ("traces_validated", 4)],
+      },
+      Check {
+        name: "refused-requests",
+        rule: "on the puncturable key taken out of a server (fresh, and after one unrelated puncture): for EVERY first byte a, a refused puncture and evaluation of an empty / 2-byte / 3-byte / 33-byte input starting with a, then a valid puncture of a, a^0x80, a^0x01 or a^0x40: the refused request leaves the retained key material unchanged, and afterwards no retained node lies on the path to the punctured input - the key material equals that of the valid puncture alone",
+        gen: |_| (0..16u64).map(|i| json!({"lo": i * 16})).collect(),
+        run: run_refused_calls,
+        min_counts: &[("refused_then_punctured", 5000)],
       },
       Check {
         name: "singles-and-siblings",
